@@ -27,34 +27,53 @@ pub fn accrued_atomics(s: &Snap) -> Uint256 {
     t
 }
 
-/// Classify a zero-coin bank rejection against the recorded finding: returns the signature when the
-/// failing transfer is exactly the one the finding predicts from the dispatcher's holdings and keeper rate.
-pub fn classify_zero_coin(err: &str, w_lenient_trace: &crate::chain::Trace, keeper_rate: u128) -> Option<&'static str> {
+/// Classify a zero-coin bank rejection against the recorded finding. `lenient` is the trace of the same
+/// transaction re-run with a bank that drops zero coins. The hit matches the finding only if every dropped
+/// transfer was emitted by the dispatcher's DispatchRewards and is exactly the one the finding predicts from what
+/// the dispatcher held at that moment: the keeper transfer when floor(held x rate) = 0, the reward-contract
+/// transfer when held - floor(held x rate) = 0.
+pub fn classify_zero_coin(err: &str, lenient: &crate::chain::Trace, keeper_rate: u128) -> Option<&'static str> {
     if !err.contains("bank: invalid coins: zero amount") {
         return None;
     }
-    // the lenient re-run records which zero transfers were dropped
+    let disp_idx = lenient.execs.iter().position(|x| x.callee == DISPATCHER && x.msg.starts_with("{\"dispatch_rewards\""))?;
+    // what the dispatcher forwarded per coin in that execution = what it held
+    let mut held = std::collections::BTreeMap::<String, u128>::new();
+    for e in lenient.events.iter().filter(|e| e.exec == disp_idx) {
+        if let Ev::BankSend { from, coins, .. } = &e.ev {
+            if from == DISPATCHER {
+                for c in coins {
+                    *held.entry(c.denom.clone()).or_insert(0) += c.amount.u128();
+                }
+            }
+        }
+    }
+    for x in lenient.execs.iter().filter(|x| x.caller == DISPATCHER && x.callee == HUB && x.msg.starts_with("{\"bond_rewards\"")) {
+        for c in x.funds.iter() {
+            *held.entry(c.denom.clone()).or_insert(0) += c.amount.u128();
+        }
+    }
     let mut sig = None;
-    for e in w_lenient_trace.events.iter() {
-        if let Ev::ZeroCoinSkipped { from, to, .. } = &e.ev {
-            if from != DISPATCHER {
+    let mut n = 0;
+    for e in lenient.events.iter() {
+        if let Ev::ZeroCoinSkipped { from, to, denom } = &e.ev {
+            n += 1;
+            if from != DISPATCHER || e.exec != disp_idx {
                 return None;
             }
-            let caller_is_dispatch = w_lenient_trace.execs.get(e.exec).map(|x| x.callee == DISPATCHER && x.msg.starts_with("{\"dispatch_rewards\"")).unwrap_or(false);
-            if !caller_is_dispatch {
-                return None;
-            }
-            if to == KEEPER && keeper_rate < E18 {
+            let h = held.get(denom).cloned().unwrap_or(0);
+            let keeper_part = mul_rate(h, keeper_rate);
+            if to == KEEPER && h > 0 && keeper_part == 0 {
                 sig = sig.or(Some(SIG_ZERO_KEEPER));
-            } else if to == REWARD && keeper_rate == E18 {
+            } else if to == REWARD && denom == KUSD && h > 0 && h == keeper_part {
                 sig = sig.or(Some(SIG_ZERO_REWARD));
-            } else if to == KEEPER || to == REWARD {
-                // dust where floor(balance * rate) = 0 or balance - floor(balance*rate) = 0 at other rates
-                sig = sig.or(Some(if to == KEEPER { SIG_ZERO_KEEPER } else { SIG_ZERO_REWARD }));
             } else {
                 return None;
             }
         }
+    }
+    if n == 0 {
+        return None;
     }
     sig
 }
